@@ -96,6 +96,9 @@ theorem backupPrelude_nbw : Prog.AllOps NoBlockWrite Inv.backupPrelude := by
   · exact .fail _
   · refine Prog.AllOps.bind (AllOps.ro_nbw lastBandId_ro) fun basisBand => ?_
     refine Prog.AllOps.bind bandCreate_nbw fun band => ?_
+    refine Prog.AllOps.bind (AllOps.ro_nbw gcLockListed_ro) fun locked2 => ?_
+    split
+    · exact .fail _
     refine Prog.AllOps.bind (AllOps.ro_nbw listBlocks_ro) fun blocks => ?_
     cases basisBand with
     | none => exact .ret _
